@@ -2,7 +2,7 @@
    uncached pipeline and keeps the stores right, for every history; errors leave the stores untouched; a hit runs
    nothing; the order of the ids does not matter; and what is NOT true: the hash pass of the requested entry runs
    twice on a miss (finding F9), and a shard can share its disk key with a CacheToDisk entry (finding F11). *)
-From Connectome Require Import Values MiscGen ColStore ColumnsGen Columns StoreFacts.
+From Connectome Require Import Values ShardGen ColStore ColumnsGen Columns StoreFacts.
 From Coq Require Import Permutation.
 Local Open Scope list_scope.
 
